@@ -31,6 +31,7 @@ impl Val {
 
 thread_local! {
     pub static LAST_PANIC: RefCell<String> = RefCell::new(String::new());
+    pub static GUARD_DEPTH: RefCell<usize> = RefCell::new(0);
 }
 
 pub fn install_panic_hook() {
@@ -43,13 +44,17 @@ pub fn install_panic_hook() {
                 else { f };
             format!("{}:{}", short, l.line())
         }).unwrap_or_else(|| "?".into());
+        if GUARD_DEPTH.with(|d| *d.borrow()) == 0 { eprintln!("harness panic (outside a guarded library call) at {}: {}", loc, info); }
         LAST_PANIC.with(|p| *p.borrow_mut() = loc);
     }));
 }
 
 /// run `f`, converting a panic into `Err(site)`
 pub fn guarded<T>(f: impl FnOnce() -> T) -> Result<T, String> {
-    match catch_unwind(AssertUnwindSafe(f)) {
+    GUARD_DEPTH.with(|d| *d.borrow_mut() += 1);
+    let r = catch_unwind(AssertUnwindSafe(f));
+    GUARD_DEPTH.with(|d| *d.borrow_mut() -= 1);
+    match r {
         Ok(v) => Ok(v),
         Err(_) => Err(LAST_PANIC.with(|p| p.borrow().clone())),
     }
@@ -245,6 +250,33 @@ impl Machine {
             ["decrypt", e, k] => {
                 let key = SymmetricKey::from_data_ref(hex::decode(k).ok()?).ok()?;
                 res(self.env(e)?.decrypt(&key))
+            }
+            ["tamper", e, field] => {
+                let e = self.env(e)?;
+                let subj = e.subject();
+                let m = match subj.case() { EnvelopeCase::Encrypted(m) => m.clone(), _ => return Some(Val::Err("not-encrypted".into())) };
+                let flip0 = |v: &[u8]| { let mut v = v.to_vec(); if !v.is_empty() { v[0] ^= 1; } v };
+                let fliplast = |v: &[u8]| { let mut v = v.to_vec(); if let Some(l) = v.last_mut() { *l ^= 1; } v };
+                let (ct, aad, nonce, auth) = (m.ciphertext().clone(), m.aad().clone(), m.nonce().data().to_vec(), m.authentication_tag().data().to_vec());
+                let (ct, aad, nonce, auth) = match *field {
+                    "ct" => (flip0(&ct), aad, nonce, auth),
+                    "nonce" => (ct, aad, flip0(&nonce), auth),
+                    "auth" => (ct, aad, nonce, flip0(&auth)),
+                    "aad" => (ct, fliplast(&aad), nonce, auth),
+                    _ => return None,
+                };
+                let m2 = bc_components::EncryptedMessage::new(ct, aad, Nonce::from_data_ref(nonce).ok()?, bc_components::AuthenticationTag::from_data_ref(auth).ok()?);
+                match Envelope::try_from(m2) { Ok(s2) => Val::Env(e.replace_subject(s2)), Err(x) => Val::Err(err_kind(&x)) }
+            }
+            ["misdeclare", e, other, k, n] => {
+                let key = SymmetricKey::from_data_ref(hex::decode(k).ok()?).ok()?;
+                let nonce = Nonce::from_data_ref(hex::decode(n).ok()?).ok()?;
+                let m = key.encrypt_with_digest(self.env(other)?.tagged_cbor().to_cbor_data(), self.env(e)?.digest().into_owned(), Some(nonce));
+                res(Envelope::try_from(m))
+            }
+            ["miscompress", e, other] => {
+                let c = bc_components::Compressed::from_uncompressed_data(self.env(other)?.tagged_cbor().to_cbor_data(), Some(self.env(e)?.digest().into_owned()));
+                res(Envelope::try_from(c))
             }
             ["decode", hx] => res(Envelope::from_tagged_cbor_data(hex::decode(hx).ok()?)),
             ["recode", e] => res(Envelope::from_tagged_cbor_data(self.env(e)?.tagged_cbor().to_cbor_data())),
